@@ -9,4 +9,6 @@ CONSTANTS
   PreFix = TRUE
   CoarseCancel = FALSE
   Modes = {"nowait"}
+  Modes2 = {"none"}
+  NeverExits = {}
 INVARIANTS NoToctouWitness
